@@ -295,8 +295,10 @@ class WFGen(F.Gen):
                   [assign(V('q'), op('sum', V('d'), V('m'))),
                    assign(el('ia', N(1)), call('mod', op('sum', el('ia', N(1)), V('q')), N(7))),
                    assign(V('d'), call('mod', op('sum', V('q'), V('t1')), N(9)))], host='kernel')
-        prog['units'].append(ip)
-        extra = [[{'s': 'call', 'name': 'ip1', 'args': [V('t2')]}],
+        with_ip = rng.random() < 0.6      # (constant propagation raises on routines that have internal procedures)
+        if with_ip:
+            prog['units'].append(ip)
+        extra = ([[{'s': 'call', 'name': 'ip1', 'args': [V('t2')]}]] if with_ip else []) + [
                  [raw('!$loki inline'), {'s': 'call', 'name': 'h2', 'args': [V('t1'), op('sum', V('n'), N(1))]}],
                  [{'s': 'call', 'name': 'h1', 'args': [el('ia', N(0)), N(2), V('t2')]}],          # sequence association
                  [raw('!$loki outline name(outl1) in(n, m) inout(k)' if rng.random() < 0.5 else '!$loki outline'),
